@@ -25,6 +25,8 @@ contract(CONN + '.send_headers', props=['C02', 'C08', 'C09', 'C10', 'C13', 'C23'
         ('priority-only-from-clients', 'implies(%s, self.config.client_side)' % PRIO, ['C23', 'C08']),
         ('priority-fields', 'implies(%s, g_out[n0].stream_weight == (15 if priority_weight is None else priority_weight - 1) and g_out[n0].depends_on == (0 if priority_depends_on is None else priority_depends_on) and g_out[n0].exclusive == (False if priority_exclusive is None else priority_exclusive) and (priority_weight is None or (1 <= priority_weight and priority_weight <= 256)) and (priority_depends_on is None or priority_depends_on != stream_id))' % PRIO, ['C23', 'C02']),
         ('compression-context-advanced-by-this-block-only', 'g_enc == old(g_enc) or g_enc == old(g_enc) + 1', ['C13']),
+        ('interim-responses-only-before-the-final-response', 'implies(not new and hdr_is_informational(headers) and old(%s.client) is False, not old(%s.headers_sent) and not end_stream)' % (SM, SM), ['C08']),
+        ('request-authority-captured-once', 'implies(not new and old(%s._authority) is not None, %s._authority == old(%s._authority))' % (SID, SID, SID), ['C24']),
         ('trailers-carry-end-stream', 'implies(%s.trailers_sent and not old(%s.trailers_sent if (stream_id in self.streams) else False), end_stream)' % (SM, SM), ['C08']),
         ('not-closed', 'cst != C_CLOSED', ['C19']),
         ('GI', 'GI(self)')],
